@@ -137,10 +137,871 @@ Proof.
   assert (Lr : length r = n) by (apply Permutation_length in Pm; simpl in Pm; lia).
   constructor.
   - apply IHn; auto.
-  - eapply Permutation_Forall; [symmetry; apply sel_perm; auto|]. eapply pop_min_least; eauto.
+  - eapply Permutation_Forall; [symmetry; apply sel_perm; auto|]. apply (pop_min_least h m r ND E).
 Qed.
 
 Lemma sel_sort_sorted : forall h, NoDup (ids h) -> StronglySorted prec (sel_sort h).
 Proof. intros. apply sel_sorted; auto. Qed.
+
+
+(* ---------------------------------------------------------------- trace functions *)
+Lemma disps_app : forall a b : list tr, disps (a ++ b) = disps a ++ disps b.
+Proof. intros. unfold disps. apply flat_map_app. Qed.
+Lemma fires_app : forall a b : list tr, fires (a ++ b) = fires a ++ fires b.
+Proof. intros. unfold fires. apply flat_map_app. Qed.
+Lemma invs_app : forall e (a b : list tr), invs e (a ++ b) = invs e a ++ invs e b.
+Proof. intros. unfold invs. apply flat_map_app. Qed.
+
+(* ---------------------------------------------------------------- the specification as a monitor
+   queued: fired and not yet taken by a pass (in fire order); pend: rest of the running pass in the
+   order it has to be dispatched; next: the next fire gets this id. *)
+Record mst := { queued : list item; pend : list item; next : nat }.
+
+Definition quiet (e : tr) : Prop :=
+  match e with TFire _ | TSnap | TDisp _ => False | _ => True end.
+
+Inductive mstep : mst -> tr -> mst -> Prop :=
+| ms_fire m x : ictr x = next m ->
+    mstep m (TFire x) {| queued := queued m ++ [x]; pend := pend m; next := S (next m) |}
+| ms_snap m : pend m = [] ->
+    mstep m TSnap {| queued := []; pend := sel_sort (queued m); next := next m |}
+| ms_disp m x p : pend m = x :: p ->
+    mstep m (TDisp x) {| queued := queued m; pend := p; next := next m |}
+| ms_quiet m e : quiet e -> mstep m e m.
+
+Inductive mrun : mst -> list tr -> mst -> Prop :=
+| mrun_nil m : mrun m [] m
+| mrun_cons m e m1 t m2 : mstep m e m1 -> mrun m1 t m2 -> mrun m (e :: t) m2.
+
+Lemma mrun_app : forall a b m m2, mrun m (a ++ b) m2 <-> exists m1, mrun m a m1 /\ mrun m1 b m2.
+Proof.
+  induction a as [|e a IH]; simpl; intros b m m2; split.
+  - intro H. exists m. split; [constructor|auto].
+  - intros (m1&H1&H2). inversion H1; subst. auto.
+  - intro H. inversion H; subst. apply IH in H5. destruct H5 as (m1'&Ha&Hb).
+    exists m1'. split; auto. econstructor; eauto.
+  - intros (m1&H1&H2). inversion H1; subst. econstructor; eauto. apply IH. eauto.
+Qed.
+
+Lemma mrun_snoc : forall m t m1 e m2, mrun m t m1 -> mstep m1 e m2 -> mrun m (t ++ [e]) m2.
+Proof. intros. apply mrun_app. exists m1. split; auto. econstructor; eauto. constructor. Qed.
+
+Definition m0 : mst := {| queued := []; pend := []; next := 0 |}.
+
+(* well-formed monitor states: ids are unique and below next *)
+Definition mwf (m : mst) : Prop :=
+  NoDup (ids (queued m ++ pend m)) /\ Forall (fun c => c < next m) (ids (queued m ++ pend m)).
+
+Lemma nodup_snoc_lt : forall (l : list nat) n, NoDup l -> Forall (fun c => c < n) l -> NoDup (l ++ [n]).
+Proof.
+  induction l; simpl; intros n ND F.
+  - constructor; [intros []|constructor].
+  - inversion ND; inversion F; subst. constructor; auto.
+    rewrite in_app_iff. intros [H|[H|[]]]; [contradiction|lia].
+Qed.
+
+Lemma mwf_step : forall m e m', mwf m -> mstep m e m' -> mwf m'.
+Proof.
+  intros m e m' [ND F] H. inversion H; subst; unfold mwf; simpl; auto.
+  - (* fire *)
+    assert (P : Permutation ((queued m ++ [x]) ++ pend m) ((queued m ++ pend m) ++ [x])).
+    { rewrite <- !app_assoc. apply Permutation_app_head. apply Permutation_app_comm. }
+    split.
+    + eapply Permutation_NoDup; [symmetry; apply ids_perm; exact P|].
+      unfold ids. rewrite map_app. simpl. rewrite H0. apply nodup_snoc_lt; auto.
+    + eapply Permutation_Forall; [symmetry; apply ids_perm; exact P|].
+      unfold ids. rewrite map_app. apply Forall_app. split.
+      * eapply Forall_impl; [|exact F]. simpl. intros; lia.
+      * constructor; [simpl; lia|constructor].
+  - (* snap *)
+    rewrite H0, app_nil_r in *.
+    split; [eapply Permutation_NoDup|eapply Permutation_Forall]; try (symmetry; apply ids_perm, sel_sort_perm); auto.
+  - (* disp *)
+    rewrite H0 in *.
+    assert (P : Permutation (queued m ++ x :: p) (x :: queued m ++ p)) by (symmetry; apply Permutation_middle).
+    pose proof (Permutation_NoDup (ids_perm _ _ P) ND) as ND'.
+    pose proof (Permutation_Forall (ids_perm _ _ P) F) as F'.
+    simpl in ND', F'. inversion ND'; inversion F'; subst. auto.
+Qed.
+
+Lemma mwf_run : forall m t m', mrun m t m' -> mwf m -> mwf m'.
+Proof. induction 1; auto. intro. apply IHmrun. eapply mwf_step; eauto. Qed.
+
+Lemma mwf_m0 : mwf m0.
+Proof. split; constructor. Qed.
+
+Lemma next_mono : forall m t m', mrun m t m' -> next m <= next m'.
+Proof.
+  induction 1; auto. etransitivity; [|exact IHmrun]. inversion H; subst; simpl; lia.
+Qed.
+
+(* what the monitor holds in [queued] is what was fired since the last snapshot *)
+Lemma queued_pf : forall m t m', mrun m t m' -> queued m' = pf_from (queued m) t.
+Proof.
+  induction 1; simpl; auto.
+  inversion H; subst; simpl in *; auto.
+  destruct e; simpl in *; auto; contradiction.
+Qed.
+
+(* a pass without a further snapshot: the dispatches are a prefix of the pass *)
+Lemma pend_pass : forall m t m', mrun m t m' -> forallb (fun e => negb (is_snap e)) t = true ->
+  pend m = disps t ++ pend m'.
+Proof.
+  induction 1; simpl; intro N; auto.
+  apply andb_true_iff in N. destruct N as [N1 N2]. specialize (IHmrun N2).
+  inversion H; subst; simpl in *; auto; try discriminate.
+  - rewrite H1. simpl. f_equal. auto.
+  - destruct e; simpl in *; auto; contradiction.
+Qed.
+
+(* every member of the running pass is dispatched or still pending *)
+Lemma pend_disp : forall m t m', mrun m t m' -> forall y, In y (pend m) -> In (TDisp y) t \/ In y (pend m').
+Proof.
+  induction 1; intros y Hy; auto.
+  inversion H; subst; simpl in *.
+  - destruct (IHmrun y Hy); auto.
+  - rewrite H1 in Hy. destruct Hy.
+  - rewrite H1 in Hy. destruct Hy as [->|Hy]; auto. destruct (IHmrun y Hy); auto.
+  - destruct (IHmrun y Hy); auto.
+Qed.
+
+Lemma fire_ids_ge : forall m t m', mrun m t m' -> forall x, In (TFire x) t -> next m <= ictr x.
+Proof.
+  induction 1; intros x Hx; [destruct Hx|].
+  destruct Hx as [->|Hx].
+  - inversion H; subst; simpl in *; try lia.
+  - specialize (IHmrun x Hx). inversion H; subst; simpl in *; lia.
+Qed.
+
+(* generations: as long as an entry of the pass that began when the ids were below n is pending,
+   nothing with an id >= n can be pending *)
+Lemma generations : forall m t m', mrun m t m' -> forall n,
+  Forall (fun c => c < n) (ids (pend m)) -> Forall (fun c => n <= c) (ids (queued m)) -> n <= next m ->
+  Forall (fun c => c < n) (ids (pend m')) \/ (forall y, In y (pend m) -> In (TDisp y) t).
+Proof.
+  induction 1; intros n Fp Fq Ln; auto.
+  inversion H; subst; simpl in *.
+  - (* fire *)
+    destruct (IHmrun n) as [L|R]; simpl; auto.
+    unfold ids. rewrite map_app. apply Forall_app. split; auto. constructor; [lia|constructor].
+  - (* snap *) right. rewrite H1. intros y [].
+  - (* disp *)
+    rewrite H1 in *. simpl in Fp. inversion Fp; subst.
+    destruct (IHmrun n) as [L|R]; simpl; auto.
+    right. intros y [->|Hy]; auto.
+  - destruct (IHmrun n) as [L|R]; auto.
+Qed.
+
+(* the ids of the fires are 0, 1, 2, ... in fire order *)
+Lemma fire_ids_seq : forall m t m', mrun m t m' -> ids (fires t) = seq (next m) (next m' - next m).
+Proof.
+  induction 1.
+  - rewrite Nat.sub_diag. reflexivity.
+  - pose proof (next_mono _ _ _ H0) as Mo.
+    inversion H; subst; simpl in *; auto.
+    + rewrite IHmrun, H1. replace (next m2 - next m) with (S (next m2 - S (next m))) by lia. reflexivity.
+    + destruct e; simpl in *; auto; contradiction.
+Qed.
+
+
+(* ---------------------------------------------------------------- reachable states, queue invariant *)
+Inductive reach (prog : list (act K)) : state -> Prop :=
+| reach_init : reach prog (init prog)
+| reach_step s s' : reach prog s -> step s = Some s' -> reach prog s'.
+
+Lemma run_reach : forall prog n s, reach prog s -> reach prog (run K leb hs_of n s).
+Proof.
+  induction n; simpl; intros s R; auto.
+  destruct (step s) eqn:E; auto. apply IHn. econstructor; eauto.
+Qed.
+
+Definition abs (s : state) : mst := {| queued := fifo s; pend := sel_sort (heap s); next := counter s |}.
+
+Record qinv (s : state) : Prop := {
+  q_batch : batch s = length (heap s);
+  q_run : mrun m0 (trace s) (abs s);
+  q_nodup : NoDup (ids (fifo s ++ heap s ++ disps (trace s)));
+  q_lt : Forall (fun c => c < counter s) (ids (fifo s ++ heap s ++ disps (trace s)));
+  q_crash : crashed s = false }.
+
+Lemma disps_quiet : forall t : list tr, Forall quiet t -> disps t = [].
+Proof. induction 1; auto. destruct x; simpl in *; auto; contradiction. Qed.
+
+Lemma mrun_quiet : forall m t m', mrun m t m' -> forall q, Forall quiet q -> mrun m (t ++ q) m'.
+Proof.
+  intros m t m' H q Q. apply mrun_app. exists m'. split; auto. clear H.
+  induction Q; [constructor|]. econstructor; [apply ms_quiet; auto|auto].
+Qed.
+
+Lemma qinv_quiet : forall s s' t, qinv s ->
+  fifo s' = fifo s -> heap s' = heap s -> counter s' = counter s -> batch s' = batch s ->
+  crashed s' = crashed s -> trace s' = trace s ++ t -> Forall quiet t -> qinv s'.
+Proof.
+  intros s s' t [B R N L C] Hf Hh Hc Hb Hx Ht Q.
+  constructor; rewrite ?Hf, ?Hh, ?Hc, ?Hb, ?Hx, ?Ht, ?disps_app, ?(disps_quiet _ Q), ?app_nil_r; auto.
+  replace (abs s') with (abs s) by (unfold abs; rewrite Hf, Hh, Hc; reflexivity).
+  apply mrun_quiet; auto.
+Qed.
+
+Lemma quiet_ret : forall ctx : option (nat * nat),
+  Forall quiet (match ctx with Some (e, h) => [TRet (K:=K) e h] | None => [] end).
+Proof. destruct ctx as [[e h]|]; repeat constructor. Qed.
+
+Lemma qinv_step : forall s s', qinv s -> step s = Some s' -> qinv s'.
+Proof.
+  intros s s' I H. unfold DispatchOrder.step in H.
+  destruct (stack s) as [|[ctx [|[n p| |] acts]| |x rem chk] k] eqn:Hstk; try discriminate.
+  - (* body returns *)
+    inversion H; subst; clear H.
+    eapply qinv_quiet with (t := match ctx with Some (e, h) => [TRet e h] | None => [] end);
+      eauto; try reflexivity. apply quiet_ret.
+  - (* fire *)
+    inversion H; subst; clear H. destruct I as [B R N L C].
+    set (x := {| ikey := p; ictr := counter s; iname := n |}) in *.
+    assert (P : Permutation ((fifo s ++ [x]) ++ heap s ++ disps (trace s))
+                            ((fifo s ++ heap s ++ disps (trace s)) ++ [x])).
+    { rewrite <- !app_assoc. apply Permutation_app_head. rewrite (app_assoc (heap s)).
+      apply Permutation_app_comm. }
+    constructor; simpl; auto.
+    + eapply mrun_snoc; [exact R|]. exact (ms_fire (abs s) x eq_refl).
+    + rewrite disps_app. simpl. rewrite app_nil_r.
+      eapply Permutation_NoDup; [symmetry; apply ids_perm; exact P|].
+      unfold ids. rewrite map_app. simpl. apply nodup_snoc_lt; auto.
+    + rewrite disps_app. simpl. rewrite app_nil_r.
+      eapply Permutation_Forall; [symmetry; apply ids_perm; exact P|].
+      unfold ids. rewrite map_app. apply Forall_app. split.
+      * eapply Forall_impl; [|exact L]. simpl. intros; lia.
+      * constructor; [simpl; lia|constructor].
+  - (* flush *)
+    destruct (batch s =? 0) eqn:Bz; inversion H; subst; clear H.
+    + (* a new pass *)
+      destruct I as [B R N L C]. apply Nat.eqb_eq in Bz.
+      assert (Hh : heap s = []) by (destruct (heap s); [auto|simpl in B; lia]).
+      constructor; simpl; auto.
+      * rewrite Hh. reflexivity.
+      * replace (trace s ++ [TFlushB; TSnap]) with ((trace s ++ [TFlushB]) ++ [TSnap])
+          by (rewrite <- app_assoc; reflexivity).
+        eapply mrun_snoc; [apply mrun_quiet; [exact R|repeat constructor]|].
+        rewrite Hh. simpl.
+        assert (Hp : pend (abs s) = []) by (simpl; rewrite Hh; reflexivity).
+        exact (ms_snap (abs s) Hp).
+      * rewrite disps_app, Hh in *. simpl in *. rewrite app_nil_r in *. auto.
+      * rewrite disps_app, Hh in *. simpl in *. rewrite app_nil_r in *. auto.
+    + eapply qinv_quiet with (t := [TFlushB]); eauto; try reflexivity. repeat constructor.
+  - (* stop *)
+    destruct ctx as [[e h]|]; simpl in H; inversion H; subst; clear H.
+    + eapply qinv_quiet with (t := [TStop e h]); eauto; try reflexivity. repeat constructor.
+    + eapply qinv_quiet with (t := []); eauto; try reflexivity.
+  - (* loop head *)
+    destruct (batch s =? 0) eqn:Bz.
+    + inversion H; subst; clear H.
+      eapply qinv_quiet with (t := [TFlushE]); eauto; try reflexivity. repeat constructor.
+    + apply Nat.eqb_neq in Bz. destruct I as [B R N L C].
+      destruct (pop_min (heap s)) as [[m h']|] eqn:Pm.
+      * inversion H; subst; clear H.
+        pose proof (pop_min_perm _ _ _ Pm) as Pp.
+        assert (P : Permutation (fifo s ++ h' ++ disps (trace s) ++ [m])
+                                (fifo s ++ heap s ++ disps (trace s))).
+        { apply Permutation_app_head. rewrite Pp. simpl.
+          rewrite app_assoc. symmetry. apply Permutation_cons_append. }
+        constructor; simpl; auto.
+        -- apply Permutation_length in Pp. simpl in Pp. lia.
+        -- eapply mrun_snoc; [exact R|].
+           exact (ms_disp (abs s) m (sel_sort h') (sel_sort_pop _ _ _ Pm)).
+        -- rewrite disps_app. simpl. eapply Permutation_NoDup; [symmetry; apply ids_perm; exact P|auto].
+        -- rewrite disps_app. simpl. eapply Permutation_Forall; [symmetry; apply ids_perm; exact P|auto].
+      * apply pop_min_none in Pm. rewrite Pm in B. simpl in B. lia.
+  - (* dispatcher loop *)
+    destruct (chk && is_stopped (ictr x) (stopped s)); [|destruct rem as [|h rem']]; inversion H; subst; clear H.
+    + eapply qinv_quiet with (t := [TDone (ictr x)]); eauto; try reflexivity. repeat constructor.
+    + eapply qinv_quiet with (t := [TDone (ictr x)]); eauto; try reflexivity. repeat constructor.
+    + eapply qinv_quiet with (t := [TInv (ictr x) (hid h) (S (depth k))]); eauto; try reflexivity. repeat constructor.
+Qed.
+
+Lemma qinv_init : forall prog, qinv (init prog).
+Proof. intro. constructor; simpl; auto; constructor. Qed.
+
+Lemma qinv_reach : forall prog s, reach prog s -> qinv s.
+Proof. induction 1; [apply qinv_init|eapply qinv_step; eauto]. Qed.
+
+
+(* ---------------------------------------------------------------- theorems about passes *)
+Definition nosnap (t : list tr) : Prop := forallb (fun e => negb (is_snap e)) t = true.
+
+Lemma split_at_snap : forall t1 t2 m, mrun m0 (t1 ++ TSnap :: t2) m ->
+  exists ma mb, mrun m0 t1 ma /\ mwf ma /\ queued ma = pending_fires t1 /\ pend ma = [] /\
+    mb = {| queued := []; pend := sel_sort (queued ma); next := next ma |} /\ mrun mb t2 m.
+Proof.
+  intros t1 t2 m H. apply mrun_app in H. destruct H as (ma&Ha&Hb).
+  inversion Hb; subst. inversion H2; subst; [|simpl in H; contradiction].
+  exists ma. eexists. repeat split; eauto.
+  - eapply mwf_run; eauto. apply mwf_m0.
+  - eapply mwf_run; eauto. apply mwf_m0.
+  - apply (queued_pf _ _ _ Ha).
+Qed.
+
+Lemma NoDup_app_l : forall (A : Type) (l1 l2 : list A), NoDup (l1 ++ l2) -> NoDup l1.
+Proof. induction l1; simpl; intros l2 H; [constructor|]. inversion H; subst. constructor; eauto. rewrite in_app_iff in *. tauto. Qed.
+
+Lemma NoDup_app_r : forall (A : Type) (l1 l2 : list A), NoDup (l1 ++ l2) -> NoDup l2.
+Proof. induction l1; simpl; intros l2 H; auto. inversion H; subst. eauto. Qed.
+Lemma NoDup_app_disj : forall (A : Type) (l1 l2 : list A) a, NoDup (l1 ++ l2) -> In a l1 -> ~ In a l2.
+Proof.
+  induction l1; simpl; intros l2 b H I; [destruct I|]. inversion H; subst.
+  destruct I as [->|I]; eauto. rewrite in_app_iff in *. tauto.
+Qed.
+
+Theorem pass_sorted : forall prog s t1 t2, reach prog s ->
+  trace s = t1 ++ TSnap :: t2 -> nosnap t2 ->
+  exists rest, length rest = batch s /\
+    Permutation (pending_fires t1) (disps t2 ++ rest) /\ StronglySorted prec (disps t2 ++ rest).
+Proof.
+  intros prog s t1 t2 R Ht N. destruct (qinv_reach _ _ R) as [B Rn _ _ _].
+  rewrite Ht in Rn. destruct (split_at_snap _ _ _ Rn) as (ma&mb&Ha&[ND _]&Hq&Hp&->&Hb).
+  pose proof (pend_pass _ _ _ Hb N) as E. simpl in E.
+  exists (sel_sort (heap s)). split; [|split].
+  - rewrite B. apply Permutation_length. apply sel_sort_perm.
+  - rewrite <- E, <- Hq. symmetry. apply sel_sort_perm.
+  - rewrite <- E. apply sel_sort_sorted. unfold ids in ND. rewrite map_app in ND. eapply NoDup_app_l; eauto.
+Qed.
+
+Theorem no_overtake : forall prog s t1 t2 t3 x x', reach prog s ->
+  trace s = t1 ++ TSnap :: t2 ++ TDisp x :: t3 -> In (TFire x') t2 -> ictr x' = ictr x ->
+  forall y, In y (pending_fires t1) -> In (TDisp y) t2.
+Proof.
+  intros prog s t1 t2 t3 x x' R Ht Hf Hid y Hy. destruct (qinv_reach _ _ R) as [_ Rn _ _ _].
+  rewrite Ht in Rn. destruct (split_at_snap _ _ _ Rn) as (ma&mb&Ha&[ND F]&Hq&Hp&->&Hb).
+  apply mrun_app in Hb. destruct Hb as (mc&Hc&Hd).
+  inversion Hd; subst. inversion H2; subst; [|simpl in H; contradiction].
+  assert (Fq : Forall (fun c => c < next ma) (ids (queued ma))).
+  { unfold ids in F. rewrite map_app in F. apply Forall_app in F. tauto. }
+  destruct (generations _ _ _ Hc (next ma)) as [L|Rr]; simpl; auto.
+  - eapply Permutation_Forall; [symmetry; apply ids_perm, sel_sort_perm|auto].
+  - match goal with Hpe : pend mc = _ :: _ |- _ => rewrite Hpe in L end. simpl in L. inversion L; subst.
+    pose proof (fire_ids_ge _ _ _ Hc _ Hf) as G. simpl in G. lia.
+  - apply Rr. simpl. eapply Permutation_in; [symmetry; apply sel_sort_perm|]. rewrite Hq. auto.
+Qed.
+
+Theorem fire_order : forall prog s, reach prog s -> ids (fires (trace s)) = seq 0 (counter s).
+Proof.
+  intros prog s R. destruct (qinv_reach _ _ R) as [_ Rn _ _ _].
+  pose proof (fire_ids_seq _ _ _ Rn) as E. simpl in E. rewrite Nat.sub_0_r in E. exact E.
+Qed.
+
+Theorem disp_once : forall prog s, reach prog s -> NoDup (ids (disps (trace s))).
+Proof.
+  intros prog s R. destruct (qinv_reach _ _ R) as [_ _ N _ _].
+  unfold ids in N. rewrite !map_app in N. apply NoDup_app_r in N. apply NoDup_app_r in N. exact N.
+Qed.
+
+Theorem no_crash : forall prog s, reach prog s -> crashed s = false /\ batch s = length (heap s).
+Proof. intros prog s R. destruct (qinv_reach _ _ R). auto. Qed.
+
+
+(* ---------------------------------------------------------------- shape of the control stack *)
+Notation frame := (frame K).
+
+(* stacks whose top frame is a body: the main program, or a handler body that sits on its
+   dispatcher frame, which sits on a dispatchEvents loop that was entered from a body *)
+Inductive wfB : list frame -> Prop :=
+| wfB_main acts : wfB [FBody None acts]
+| wfB_h e h acts x rem k : ictr x = e -> wfB k ->
+    wfB (FBody (Some (e, h)) acts :: FDisp x rem true :: FLoop :: k).
+
+Definition wfstack (k : list frame) : Prop :=
+  k = [] \/ wfB k \/ (exists k', k = FLoop :: k' /\ wfB k') \/
+  (exists x rem chk k', k = FDisp x rem chk :: FLoop :: k' /\ wfB k').
+
+Lemma wfB_acts : forall ctx a a' k, wfB (FBody ctx a :: k) -> wfB (FBody ctx a' :: k).
+Proof. intros ctx a a' k H. inversion H; subst; constructor; auto. Qed.
+
+Lemma wfstack_body : forall ctx a k, wfstack (FBody ctx a :: k) -> wfB (FBody ctx a :: k).
+Proof.
+  intros ctx a k [H|[H|[(k'&H&_)|(x&rem&chk&k'&H&_)]]]; auto; discriminate.
+Qed.
+
+Lemma wf_step : forall s s', wfstack (stack s) -> step s = Some s' -> wfstack (stack s').
+Proof.
+  intros s s' W H. unfold DispatchOrder.step in H.
+  destruct (stack s) as [|[ctx [|[n p| |] acts]| |x rem chk] k] eqn:Hstk; try discriminate.
+  - inversion H; subst; clear H. simpl. apply wfstack_body in W. inversion W; subst.
+    + left; auto.
+    + right; right; right. eauto 8.
+  - inversion H; subst; clear H. simpl. right; left. eapply wfB_acts, wfstack_body; eauto.
+  - apply wfstack_body in W.
+    destruct (batch s =? 0); inversion H; subst; clear H; simpl;
+      right; right; left; eexists; split; eauto; eapply wfB_acts; eauto.
+  - apply wfstack_body in W.
+    destruct ctx as [[e h]|]; simpl in H; inversion H; subst; clear H; simpl;
+      right; left; eapply wfB_acts; eauto.
+  - assert (Wk : wfB k).
+    { destruct W as [W|[W|[(k'&W&Wk)|(x&rem&chk&k'&W&_)]]]; try discriminate.
+      - inversion W.
+      - inversion W; subst; auto. }
+    destruct (batch s =? 0); [inversion H; subst; simpl; right; left; auto|].
+    destruct (pop_min (heap s)) as [[m h']|]; inversion H; subst; clear H; simpl.
+    + right; right; right. eauto 8.
+    + left; auto.
+  - assert (Wk : exists k', k = FLoop :: k' /\ wfB k').
+    { destruct W as [W|[W|[(k'&W&Wk)|(x0&rem0&chk0&k'&W&Wk)]]]; try discriminate.
+      - inversion W.
+      - inversion W; subst; eauto. }
+    destruct Wk as (k'&->&Wk).
+    destruct (chk && is_stopped (ictr x) (stopped s)); [|destruct rem as [|h rem']];
+      inversion H; subst; clear H; simpl.
+    + right; right; left. eauto.
+    + right; right; left. eauto.
+    + right; left. constructor; auto.
+Qed.
+
+Lemma wf_reach : forall prog s, reach prog s -> wfstack (stack s).
+Proof.
+  induction 1; [right; left; constructor|eapply wf_step; eauto].
+Qed.
+
+Definition loops (k : list frame) : nat :=
+  length (filter (fun f => match f with FLoop => true | _ => false end) k).
+
+Lemma wfB_depth : forall k, wfB k -> depth k = loops k.
+Proof. induction 1; simpl; auto. unfold depth, loops in *. simpl. rewrite IHwfB. reflexivity. Qed.
+
+(* handlers nest only through explicit flush() calls: the handler nesting depth never exceeds the
+   number of dispatchEvents loops that are active *)
+Theorem depth_le_loops : forall prog s, reach prog s -> depth (stack s) <= loops (stack s).
+Proof.
+  intros prog s R. destruct (wf_reach _ _ R) as [W|[W|[(k'&W&Wk)|(x&rem&chk&k'&W&Wk)]]].
+  - rewrite W. auto.
+  - rewrite (wfB_depth _ W). auto.
+  - rewrite W. unfold depth, loops. simpl. fold (depth k') (loops k'). rewrite (wfB_depth _ Wk). auto.
+  - rewrite W. unfold depth, loops. simpl. fold (depth k') (loops k'). rewrite (wfB_depth _ Wk). auto.
+Qed.
+
+
+(* ---------------------------------------------------------------- handler order and stop() *)
+Definition frame_ids (k : list frame) : list nat :=
+  flat_map (fun f => match f with FDisp x _ _ => [ictr x] | _ => [] end) k.
+(* the handler ids of an event in the order sorted(..., reverse=True) gives them *)
+Definition full (x : item) : list nat := map hid (sort_desc K leb (hs_of (iname x))).
+
+(* after a stop() of event e no handler is invoked for e *)
+Definition ok_stop (t : list tr) : Prop :=
+  forall u e h v, t = u ++ TStop e h :: v -> forall h' d, ~ In (TInv e h' d) v.
+
+Lemma snoc_cases : forall (A : Type) (l : list A), l = [] \/ exists l' a, l = l' ++ [a].
+Proof. intros A l. induction l using rev_ind; [left; auto|right; eauto]. Qed.
+
+Lemma ok_stop_snoc : forall t a, ok_stop t ->
+  (forall e h' d, a = TInv e h' d -> forall h, ~ In (TStop e h) t) -> ok_stop (t ++ [a]).
+Proof.
+  intros t a O Ha u e h v E h' d I.
+  destruct (snoc_cases _ v) as [->|(v'&a'&->)]; [destruct I|].
+  - rewrite app_comm_cons, app_assoc in E. apply app_inj_tail in E. destruct E as [E ->].
+    apply in_app_iff in I. destruct I as [I|[I|[]]].
+    + eapply O; eauto.
+    + subst t. eapply Ha; eauto. apply in_app_iff. right. left. reflexivity.
+Qed.
+
+Definition plain (e : tr) : Prop :=
+  match e with TDisp _ | TInv _ _ _ | TDone _ | TStop _ _ => False | _ => True end.
+
+Lemma ok_stop_plain : forall q t, ok_stop t -> Forall plain q -> ok_stop (t ++ q).
+Proof.
+  induction q as [|a q IH]; intros t O F; [rewrite app_nil_r; auto|].
+  inversion F; subst. replace (t ++ a :: q) with ((t ++ [a]) ++ q) by (rewrite <- app_assoc; reflexivity).
+  apply IH; auto. apply ok_stop_snoc; auto. intros; subst. simpl in *. contradiction.
+Qed.
+
+Lemma plain_disps : forall q, Forall plain q -> disps q = [].
+Proof. induction 1; auto. destruct x; simpl in *; auto; contradiction. Qed.
+Lemma plain_invs : forall e q, Forall plain q -> invs e q = [].
+Proof. induction 1; auto. destruct x; simpl in *; auto; contradiction. Qed.
+Lemma plain_done : forall e q, Forall plain q -> ~ In (TDone e) q.
+Proof. induction 1; simpl; auto. intros [H1|H1]; auto. subst. simpl in *. auto. Qed.
+Lemma plain_stop : forall e h q, Forall plain q -> ~ In (TStop e h) q.
+Proof. induction 1; simpl; auto. intros [H1|H1]; auto. subst. simpl in *. auto. Qed.
+
+Record hinv (s : state) : Prop := {
+  h_frames : NoDup (frame_ids (stack s));
+  h_fdisp : forall x rem chk, In (FDisp x rem chk) (stack s) ->
+      In x (disps (trace s)) /\ ~ In (TDone (ictr x)) (trace s) /\
+      invs (ictr x) (trace s) ++ map hid rem = full x /\
+      (chk = false -> ~ In (ictr x) (stopped s));
+  h_done : forall x, In x (disps (trace s)) -> ~ In (ictr x) (frame_ids (stack s)) ->
+      In (TDone (ictr x)) (trace s) /\
+      exists rem, invs (ictr x) (trace s) ++ rem = full x /\ (rem = [] \/ In (ictr x) (stopped s));
+  h_fresh : forall e, ~ In e (ids (disps (trace s))) ->
+      invs e (trace s) = [] /\ ~ In (TDone e) (trace s) /\ ~ In e (stopped s);
+  h_stop : forall e, In e (stopped s) <-> exists h, In (TStop e h) (trace s);
+  h_nis : ok_stop (trace s) }.
+
+Lemma in_frame_ids : forall x rem chk k, In (FDisp x rem chk) k -> In (ictr x) (frame_ids k).
+Proof. intros. unfold frame_ids. apply in_flat_map. eexists; split; eauto. simpl; auto. Qed.
+
+Lemma frame_ids_in : forall i k, In i (frame_ids k) -> exists x rem chk, In (FDisp x rem chk) k /\ ictr x = i.
+Proof.
+  intros i k H. unfold frame_ids in H. apply in_flat_map in H. destruct H as (f&Hf&Hi).
+  destruct f; simpl in Hi; try contradiction. destruct Hi as [<-|[]]. eauto.
+Qed.
+
+Lemma ids_inj : forall (l : list item) a b, NoDup (ids l) -> In a l -> In b l -> ictr a = ictr b -> a = b.
+Proof.
+  induction l as [|c l IH]; simpl; intros a b ND Ia Ib E; [destruct Ia|].
+  inversion ND; subst. destruct Ia as [->|Ia]; destruct Ib as [->|Ib]; auto.
+  - exfalso. apply H1. rewrite E. apply in_map. auto.
+  - exfalso. apply H1. rewrite <- E. apply in_map. auto.
+Qed.
+
+(* steps that touch neither dispatcher frames nor stop flags and log only plain entries *)
+Lemma hinv_plain : forall s s' t, hinv s -> stopped s' = stopped s ->
+  frame_ids (stack s') = frame_ids (stack s) ->
+  (forall x rem chk, In (FDisp x rem chk) (stack s') -> In (FDisp x rem chk) (stack s)) ->
+  trace s' = trace s ++ t -> Forall plain t -> hinv s'.
+Proof.
+  intros s s' t [Hf Hd Hn Hr Hs Ho] Est Efr Hin Et P.
+  constructor; rewrite ?Est, ?Efr, ?Et, ?disps_app, ?(plain_disps _ P), ?app_nil_r; auto.
+  - intros x rem chk I. destruct (Hd _ _ _ (Hin _ _ _ I)) as (A&B&C&D).
+    rewrite invs_app, (plain_invs _ _ P), app_nil_r. repeat split; auto.
+    rewrite in_app_iff. intros [Q|Q]; [auto|eapply plain_done; eauto].
+  - intros x I NI. destruct (Hn _ I NI) as (A&rem&B&C). split.
+    + apply in_app_iff; auto.
+    + exists rem. rewrite invs_app, (plain_invs _ _ P), app_nil_r. auto.
+  - intros e NI. destruct (Hr _ NI) as (A&B&C).
+    rewrite invs_app, (plain_invs _ _ P), app_nil_r. repeat split; auto.
+    rewrite in_app_iff. intros [Q|Q]; [auto|eapply plain_done; eauto].
+  - intro e. rewrite Hs. split; intros (h&I); exists h.
+    + apply in_app_iff; auto.
+    + apply in_app_iff in I. destruct I as [I|I]; auto. exfalso. eapply plain_stop; eauto.
+  - apply ok_stop_plain; auto.
+Qed.
+
+Lemma plain_ret : forall ctx : option (nat * nat),
+  Forall plain (match ctx with Some (e, h) => [TRet (K:=K) e h] | None => [] end).
+Proof. destruct ctx as [[e h]|]; repeat constructor. Qed.
+
+Lemma invs_snoc_other : forall e (t : list tr) a, (forall e' h d, a <> TInv e' h d) -> invs e (t ++ [a]) = invs e t.
+Proof.
+  intros e t a N. rewrite invs_app. simpl. destruct a; simpl; rewrite ?app_nil_r; auto.
+  exfalso. eapply N; eauto.
+Qed.
+
+Lemma in_snoc_other : forall (t : list tr) a b, a <> b -> In b (t ++ [a]) <-> In b t.
+Proof.
+  intros. rewrite in_app_iff. simpl. split; [intros [I|[I|[]]]; auto; contradiction|auto].
+Qed.
+
+
+Lemma is_stopped_in : forall e l, is_stopped e l = true <-> In e l.
+Proof.
+  intros. unfold is_stopped. rewrite existsb_exists. split.
+  - intros (y&I&E). apply Nat.eqb_eq in E. subst. auto.
+  - intro I. exists e. split; auto. apply Nat.eqb_refl.
+Qed.
+
+Lemma hinv_step : forall s s', qinv s -> wfstack (stack s) -> hinv s -> step s = Some s' -> hinv s'.
+Proof.
+  intros s s' Q W I H. unfold DispatchOrder.step in H.
+  destruct (stack s) as [|[ctx [|[n p| |] acts]| |x rem chk] k] eqn:Hstk; try discriminate.
+  - (* body returns *)
+    inversion H; subst; clear H.
+    eapply hinv_plain with (t := match ctx with Some (e, h) => [TRet e h] | None => [] end);
+      eauto; try reflexivity; try apply plain_ret; rewrite Hstk; simpl; auto.
+  - (* fire *)
+    inversion H; subst; clear H.
+    eapply hinv_plain with (t := [TFire {| ikey := p; ictr := counter s; iname := n |}]);
+      eauto; try reflexivity; try (repeat constructor); rewrite Hstk; simpl; auto.
+    intros x rem chk [E|E]; [discriminate|auto].
+  - (* flush *)
+    destruct (batch s =? 0); inversion H; subst; clear H.
+    + eapply hinv_plain with (t := [TFlushB; TSnap]); eauto; try reflexivity; try (repeat constructor);
+        rewrite Hstk; simpl; auto.
+      intros x rem chk [E|[E|E]]; try discriminate; auto.
+    + eapply hinv_plain with (t := [TFlushB]); eauto; try reflexivity; try (repeat constructor);
+        rewrite Hstk; simpl; auto.
+      intros x rem chk [E|[E|E]]; try discriminate; auto.
+  - (* stop *)
+    destruct ctx as [[e h]|]; simpl in H; inversion H; subst; clear H.
+    + apply wfstack_body in W. inversion W; subst. clear W.
+      destruct I as [Hf Hd Hn Hr Hs Ho]. rewrite Hstk in *. simpl in Hf.
+      assert (Hx : In x (disps (trace s))) by (apply (Hd x rem true); simpl; auto).
+      constructor; simpl; rewrite ?disps_app, ?app_nil_r; simpl; rewrite ?app_nil_r; auto.
+      * intros x0 rem0 chk0 I0.
+        assert (I1 : In (FDisp x0 rem0 chk0) (FBody (Some (ictr x, h)) (AStop :: acts) :: FDisp x rem true :: FLoop :: k0)).
+        { destruct I0 as [E|I0]; [discriminate|right; auto]. }
+        destruct (Hd _ _ _ I1) as (A&B&C&D). repeat split; auto.
+        -- rewrite in_snoc_other; [auto|discriminate].
+        -- rewrite invs_snoc_other; [auto|discriminate].
+        -- intros -> [E|E]; [|apply D; auto].
+           destruct I0 as [E0|[E0|[E0|I0]]]; try discriminate.
+           apply in_frame_ids in I0. inversion Hf; subst. rewrite <- E in I0. auto.
+      * intros x0 I0 N0. destruct (Hn x0 I0 N0) as (A&rem0&B&C). split.
+        -- apply in_app_iff; auto.
+        -- exists rem0. rewrite invs_snoc_other; [|discriminate]. split; auto. destruct C; auto.
+      * intros e0 N0. destruct (Hr e0 N0) as (A&B&C). repeat split.
+        -- rewrite invs_snoc_other; [auto|discriminate].
+        -- rewrite in_snoc_other; [auto|discriminate].
+        -- intros [E|E]; [|auto]. apply N0. rewrite <- E. apply in_map. auto.
+      * intro e0. split.
+        -- intros [<-|E]; [exists h; apply in_app_iff; right; left; auto|].
+           apply Hs in E. destruct E as (h0&E). exists h0. apply in_app_iff; auto.
+        -- intros (h0&E). apply in_app_iff in E. destruct E as [E|[E|[]]].
+           ++ right. apply Hs. eauto.
+           ++ inversion E; subst. auto.
+      * apply ok_stop_snoc; auto. intros; discriminate.
+    + eapply hinv_plain with (t := []); eauto; try reflexivity; try constructor; rewrite Hstk; simpl; auto.
+      intros x rem chk [E|E]; [discriminate|auto].
+  - (* loop head *)
+    destruct (batch s =? 0) eqn:Bz.
+    + inversion H; subst; clear H.
+      eapply hinv_plain with (t := [TFlushE]); eauto; try reflexivity; try (repeat constructor);
+        rewrite Hstk; simpl; auto.
+    + destruct (pop_min (heap s)) as [[m h']|] eqn:Pm; inversion H; subst; clear H.
+      * (* dispatch m *)
+        destruct I as [Hf Hd Hn Hr Hs Ho]. rewrite Hstk in *. simpl in Hf.
+        assert (Nm : ~ In (ictr m) (ids (disps (trace s)))).
+        { destruct Q as [_ _ N _ _]. unfold ids in N. rewrite !map_app in N. apply NoDup_app_r in N.
+          eapply NoDup_app_disj; eauto. apply in_map.
+          eapply Permutation_in; [symmetry; apply (pop_min_perm _ _ _ Pm)|left; auto]. }
+        destruct (Hr _ Nm) as (Fi&Fd&Fs).
+        constructor; simpl; rewrite ?disps_app; simpl; auto.
+        -- constructor; auto. intro C. apply frame_ids_in in C. destruct C as (x0&r0&c0&C&E).
+           apply Nm. rewrite <- E. apply in_map. apply (Hd x0 r0 c0). right. auto.
+        -- intros x0 rem0 chk0 [E|[E|I0]]; [inversion E; subst; clear E|discriminate|].
+           ++ repeat split; auto.
+              ** apply in_app_iff; right; left; auto.
+              ** rewrite in_snoc_other; [auto|discriminate].
+              ** rewrite invs_snoc_other; [|discriminate]. rewrite Fi. reflexivity.
+           ++ destruct (Hd x0 rem0 chk0) as (A&B&C&D); [right; auto|]. repeat split; auto.
+              ** apply in_app_iff; auto.
+              ** rewrite in_snoc_other; [auto|discriminate].
+              ** rewrite invs_snoc_other; [auto|discriminate].
+        -- intros x0 I0 N0. apply in_app_iff in I0. destruct I0 as [I0|[<-|[]]]; [|exfalso; apply N0; auto].
+           destruct (Hn x0 I0) as (A&rem0&B&C); [intro; apply N0; auto|]. split.
+           ++ apply in_app_iff; auto.
+           ++ exists rem0. rewrite invs_snoc_other; [auto|discriminate].
+        -- intros e0 N0. destruct (Hr e0) as (A&B&C).
+           { intro; apply N0. unfold ids. rewrite map_app. apply in_app_iff; auto. }
+           repeat split; auto.
+           ++ rewrite invs_snoc_other; [auto|discriminate].
+           ++ rewrite in_snoc_other; [auto|discriminate].
+        -- intro e0. rewrite Hs. split; intros (h0&E); exists h0.
+           ++ apply in_app_iff; auto.
+           ++ apply in_snoc_other in E; [auto|discriminate].
+        -- apply ok_stop_snoc; auto. intros; discriminate.
+      * (* pop from an empty heap: the stack is cleared *)
+        destruct I as [Hf Hd Hn Hr Hs Ho]. exfalso.
+        destruct Q as [B _ _ _ _]. apply pop_min_none in Pm. rewrite Pm in B. simpl in B.
+        apply Nat.eqb_neq in Bz. lia.
+  - (* dispatcher loop *)
+    destruct I as [Hf Hd Hn Hr Hs Ho]. rewrite Hstk in *. simpl in Hf. inversion Hf as [|? ? Nx Hfk]; subst.
+    destruct (Hd x rem chk) as (Dx&Tx&Ix&Cx); [left; auto|].
+    assert (Done : forall s1, stopped s1 = stopped s -> stack s1 = k ->
+              trace s1 = trace s ++ [TDone (ictr x)] ->
+              (map hid rem = [] \/ In (ictr x) (stopped s)) -> hinv s1).
+    { intros s1 E1 E2 E3 Why. constructor; rewrite ?E1, ?E2, ?E3, ?disps_app; simpl; rewrite ?app_nil_r; auto.
+      - intros x0 rem0 chk0 I0. destruct (Hd x0 rem0 chk0) as (A&B&C&D); [right; auto|].
+        repeat split; auto.
+        + rewrite in_snoc_other; [auto|]. intro E; inversion E.
+          apply Nx. match goal with Hq : ictr x = ictr x0 |- _ => rewrite Hq end. eapply in_frame_ids; eauto.
+        + rewrite invs_snoc_other; [auto|discriminate].
+      - intros x0 I0 N0. destruct (Nat.eq_dec (ictr x0) (ictr x)) as [E|E].
+        + assert (x0 = x).
+          { destruct Q as [_ _ N _ _]. unfold ids in N. rewrite !map_app in N. do 2 apply NoDup_app_r in N.
+            eapply ids_inj; eauto. }
+          subst x0. split; [apply in_app_iff; right; left; auto|].
+          exists (map hid rem). rewrite invs_snoc_other; [auto|discriminate].
+        + destruct (Hn x0 I0) as (A&rem0&B&C); [intros [F|F]; auto|]. split; [apply in_app_iff; auto|].
+          exists rem0. rewrite invs_snoc_other; [auto|discriminate].
+      - intros e0 N0. destruct (Hr e0 N0) as (A&B&C). repeat split; auto.
+        + rewrite invs_snoc_other; [auto|discriminate].
+        + rewrite in_snoc_other; [auto|]. intro E; inversion E; subst. apply N0. apply in_map. auto.
+      - intro e0. rewrite Hs. split; intros (h0&E); exists h0.
+        + apply in_app_iff; auto.
+        + apply in_snoc_other in E; [auto|discriminate].
+      - apply ok_stop_snoc; auto. intros; discriminate. }
+    destruct (chk && is_stopped (ictr x) (stopped s)) eqn:Cs; [|destruct rem as [|h rem']];
+      inversion H; subst; clear H.
+    + apply Done; auto. right. apply andb_true_iff in Cs. apply is_stopped_in. tauto.
+    + apply Done; auto.
+    + (* invoke h *)
+      assert (Ns : ~ In (ictr x) (stopped s)).
+      { destruct chk; simpl in Cs; auto. intro F. apply is_stopped_in in F. congruence. }
+      constructor; simpl; rewrite ?disps_app; simpl; rewrite ?app_nil_r; auto.
+      * intros x0 rem0 chk0 [E|[E|I0]]; [discriminate|inversion E; subst; clear E|].
+        -- repeat split; auto.
+           ++ rewrite in_snoc_other; [auto|discriminate].
+           ++ rewrite invs_app. simpl. rewrite Nat.eqb_refl. simpl in Ix. rewrite <- Ix, <- app_assoc. reflexivity.
+        -- destruct (Hd x0 rem0 chk0) as (A&B&C&D); [right; auto|]. repeat split; auto.
+           ++ rewrite in_snoc_other; [auto|discriminate].
+           ++ rewrite invs_app. simpl. destruct (ictr x =? ictr x0) eqn:E; [|rewrite app_nil_r; auto].
+              apply Nat.eqb_eq in E. exfalso. apply Nx. rewrite E. eapply in_frame_ids; eauto.
+      * intros x0 I0 N0. destruct (Hn x0 I0 N0) as (A&rem0&B&C). split; [apply in_app_iff; auto|].
+        exists rem0. rewrite invs_app. simpl. destruct (ictr x =? ictr x0) eqn:E; [|rewrite app_nil_r; auto].
+        apply Nat.eqb_eq in E. exfalso. apply N0. left. auto.
+      * intros e0 N0. destruct (Hr e0 N0) as (A&B&C). repeat split; auto.
+        -- rewrite invs_app. simpl. destruct (ictr x =? e0) eqn:E; [|rewrite app_nil_r; auto].
+           apply Nat.eqb_eq in E. exfalso. apply N0. rewrite <- E. apply in_map. auto.
+        -- rewrite in_snoc_other; [auto|discriminate].
+      * intro e0. rewrite Hs. split; intros (h0&E); exists h0.
+        -- apply in_app_iff; auto.
+        -- apply in_snoc_other in E; [auto|discriminate].
+      * apply ok_stop_snoc; auto. intros e0 h0 d0 E h1 F. inversion E; subst.
+        apply Ns. apply Hs. eauto.
+Qed.
+
+
+Lemma hinv_init : forall prog, hinv (init prog).
+Proof.
+  intro. constructor; simpl; auto.
+  - constructor.
+  - intros x rem chk [E|[]]. discriminate.
+  - intros x [].
+  - intro e. split; [intros []|intros (h&[])].
+  - intros u e h v E. destruct u; discriminate.
+Qed.
+
+Lemma hinv_reach : forall prog s, reach prog s -> hinv s.
+Proof.
+  induction 1; [apply hinv_init|].
+  eapply hinv_step; eauto using qinv_reach, wf_reach.
+Qed.
+
+Lemma frame_of : forall prog s x, reach prog s -> In x (disps (trace s)) ->
+  In (ictr x) (frame_ids (stack s)) -> exists rem chk, In (FDisp x rem chk) (stack s).
+Proof.
+  intros prog s x R D F. apply frame_ids_in in F. destruct F as (x0&rem&chk&I&E).
+  destruct (hinv_reach _ _ R) as [_ Hd _ _ _ _]. destruct (Hd _ _ _ I) as (A&_).
+  assert (x0 = x) by (eapply ids_inj; eauto using disp_once). subst. eauto.
+Qed.
+
+(* the handlers invoked for a dispatched event are always a prefix of its sorted handler list *)
+Theorem handlers_prefix : forall prog s x, reach prog s -> In x (disps (trace s)) ->
+  exists rem, invs (ictr x) (trace s) ++ rem = full x.
+Proof.
+  intros prog s x R D. destruct (hinv_reach _ _ R) as [_ Hd Hn _ _ _].
+  destruct (in_dec Nat.eq_dec (ictr x) (frame_ids (stack s))) as [F|F].
+  - destruct (frame_of _ _ _ R D F) as (rem&chk&I). destruct (Hd _ _ _ I) as (_&_&C&_). eauto.
+  - destruct (Hn _ D F) as (_&rem&B&_). eauto.
+Qed.
+
+(* when the dispatcher is done with an event that nobody stopped, all its handlers ran *)
+Theorem handlers_complete : forall prog s x, reach prog s -> In x (disps (trace s)) ->
+  In (TDone (ictr x)) (trace s) -> (forall h, ~ In (TStop (ictr x) h) (trace s)) ->
+  invs (ictr x) (trace s) = full x.
+Proof.
+  intros prog s x R D Dn Ns. destruct (hinv_reach _ _ R) as [_ Hd Hn _ Hs _].
+  destruct (in_dec Nat.eq_dec (ictr x) (frame_ids (stack s))) as [F|F].
+  - destruct (frame_of _ _ _ R D F) as (rem&chk&I). destruct (Hd _ _ _ I) as (_&B&_). contradiction.
+  - destruct (Hn _ D F) as (_&rem&B&[->|C]).
+    + rewrite app_nil_r in B. auto.
+    + apply Hs in C. destruct C as (h&C). exfalso. eapply Ns; eauto.
+Qed.
+
+(* once stop() was called on an event, no further handler is invoked for it *)
+Theorem no_invoke_after_stop : forall prog s u e h v, reach prog s ->
+  trace s = u ++ TStop e h :: v -> forall h' d, ~ In (TInv e h' d) v.
+Proof. intros prog s u e h v R E. destruct (hinv_reach _ _ R) as [_ _ _ _ _ Ho]. eapply Ho; eauto. Qed.
+
+(* stop() is logged by a handler that was invoked for that event *)
+Definition binv (s : state) : Prop :=
+  (forall e h acts, In (FBody (Some (e, h)) acts) (stack s) -> In h (invs e (trace s))) /\
+  (forall e h, In (TStop e h) (trace s) -> In h (invs e (trace s))).
+
+Lemma invs_mono : forall e h (t q : list tr), In h (invs e t) -> In h (invs e (t ++ q)).
+Proof. intros. rewrite invs_app. apply in_app_iff. auto. Qed.
+
+Ltac nostop_tac :=
+  let F := fresh "F" in intros ? ? F; simpl in F; intuition discriminate.
+Ltac frames_tac :=
+  let e0 := fresh "e" in let h0 := fresh "h" in let a0 := fresh "a" in let I0 := fresh "I" in
+  intros e0 h0 a0 I0; simpl in I0;
+  repeat match type of I0 with _ \/ _ => destruct I0 as [I0|I0] end;
+  try discriminate;
+  first [ inversion I0; subst; left; eexists; left; reflexivity
+        | left; exists a0; right; exact I0 ].
+
+Lemma binv_step : forall s s', binv s -> step s = Some s' -> binv s'.
+Proof.
+  intros s s' [Bf Bs] H. unfold DispatchOrder.step in H.
+  assert (Keep : forall t, trace s' = trace s ++ t ->
+            (forall e h, ~ In (TStop e h) t) ->
+            (forall e h acts, In (FBody (Some (e, h)) acts) (stack s') ->
+                 (exists acts', In (FBody (Some (e, h)) acts') (stack s)) \/ In h (invs e t)) ->
+            binv s').
+  { intros t Et Nt Hk. split.
+    - intros e h acts I. rewrite Et. destruct (Hk _ _ _ I) as [(a'&I')|I'].
+      + apply invs_mono. eauto.
+      + rewrite invs_app. apply in_app_iff. auto.
+    - intros e h I. rewrite Et in *. apply in_app_iff in I. destruct I as [I|I].
+      + apply invs_mono. auto.
+      + exfalso. eapply Nt; eauto. }
+  destruct (stack s) as [|[ctx [|[n p| |] acts]| |x rem chk] k] eqn:Hstk; try discriminate.
+  - inversion H; subst; clear H.
+    apply Keep with (t := match ctx with Some (e, h) => [TRet e h] | None => [] end);
+      [reflexivity|destruct ctx as [[e h]|]; nostop_tac|frames_tac].
+  - inversion H; subst; clear H.
+    apply Keep with (t := [TFire {| ikey := p; ictr := counter s; iname := n |}]);
+      [reflexivity|nostop_tac|frames_tac].
+  - destruct (batch s =? 0); inversion H; subst; clear H.
+    + apply Keep with (t := [TFlushB; TSnap]); [reflexivity|nostop_tac|frames_tac].
+    + apply Keep with (t := [TFlushB]); [reflexivity|nostop_tac|frames_tac].
+  - destruct ctx as [[e h]|]; simpl in H; inversion H; subst; clear H.
+    + split; simpl.
+      * intros e0 h0 a I. apply invs_mono. destruct I as [I|I].
+        -- inversion I; subst. eapply Bf. left. reflexivity.
+        -- eapply Bf. right. eauto.
+      * intros e0 h0 I. apply invs_mono. apply in_app_iff in I. destruct I as [I|[I|[]]]; auto.
+        inversion I; subst. eapply Bf. left. reflexivity.
+    + apply Keep with (t := []); [reflexivity|nostop_tac|frames_tac].
+  - destruct (batch s =? 0); [|destruct (pop_min (heap s)) as [[m h']|]]; inversion H; subst; clear H.
+    + apply Keep with (t := [TFlushE]); [reflexivity|nostop_tac|frames_tac].
+    + apply Keep with (t := [TDisp m]); [reflexivity|nostop_tac|frames_tac].
+    + split; simpl; [intros e h a []|auto].
+  - destruct (chk && is_stopped (ictr x) (stopped s)); [|destruct rem as [|h rem']];
+      inversion H; subst; clear H.
+    + apply Keep with (t := [TDone (ictr x)]); [reflexivity|nostop_tac|frames_tac].
+    + apply Keep with (t := [TDone (ictr x)]); [reflexivity|nostop_tac|frames_tac].
+    + apply Keep with (t := [TInv (ictr x) (hid h) (S (depth k))]); [reflexivity|nostop_tac|].
+      intros e h0 a [I|[I|I]]; [|discriminate|left; exists a; right; auto].
+      inversion I; subst. right. simpl. rewrite Nat.eqb_refl. left. auto.
+Qed.
+
+Theorem stopper_was_invoked : forall prog s e h, reach prog s ->
+  In (TStop e h) (trace s) -> In h (invs e (trace s)).
+Proof.
+  intros prog s e h R. assert (B : binv s).
+  { induction R; [|eapply binv_step; eauto]. split; simpl; [intros e0 h0 a [I|[]]; discriminate|intros e0 h0 []]. }
+  destruct B as [_ B]. auto.
+Qed.
+
+(* sorted(handlers, key=priority, reverse=True) *)
+Definition hge (a b : handler K) : Prop := leb (hprio b) (hprio a) = true.
+
+Lemma insert_desc_perm : forall h l, Permutation (insert_desc K leb h l) (h :: l).
+Proof.
+  induction l as [|x r IH]; simpl; auto. destruct (leb (hprio x) (hprio h)); auto.
+  rewrite IH. apply perm_swap.
+Qed.
+
+Theorem sort_desc_perm : forall l, Permutation (sort_desc K leb l) l.
+Proof.
+  induction l as [|h l IH]; simpl; auto. unfold sort_desc in *. simpl.
+  rewrite insert_desc_perm. auto.
+Qed.
+
+Lemma insert_desc_sorted : forall h l, StronglySorted hge l -> StronglySorted hge (insert_desc K leb h l).
+Proof.
+  induction l as [|x r IH]; simpl; intro S.
+  - repeat constructor.
+  - inversion S; subst. destruct (leb (hprio x) (hprio h)) eqn:E.
+    + constructor; auto. constructor; auto.
+      eapply Forall_impl; [|eassumption]. unfold hge. intros y Hy. eapply leb_trans; eauto.
+    + constructor; auto. eapply Permutation_Forall; [symmetry; apply insert_desc_perm|].
+      constructor; auto. unfold hge. destruct (leb_total (hprio x) (hprio h)); congruence.
+Qed.
+
+Theorem sort_desc_sorted : forall l, StronglySorted hge (sort_desc K leb l).
+Proof.
+  induction l as [|h l IH]; [constructor|]. unfold sort_desc in *. simpl. apply insert_desc_sorted. auto.
+Qed.
 
 End P.
